@@ -5,7 +5,7 @@ import os
 
 from ..core import Ctx, HarnessError, Result
 from ..sched import catalogue as cat
-from ..sched.catalogue import A, AND, E, N, spec_from
+from ..sched.catalogue import spec_from
 from ..sched.monitors import PoolInvariants, SubmitOnce
 from ..sched.mon_c19 import (
     COUNTS, RestartGraphFaithful, RestartState, StopProfile)
@@ -17,9 +17,30 @@ STOPS = ('REQUEST_CLEAN', 'REQUEST_NOW', 'REQUEST_NOW_NOW')
 
 ASSUME = [
     'bounded catalogue (see bounds); integer cycling; localhost jobs; '
-    'all-success jobs',
+    'all-success jobs; stop (clean), stop --now and stop --now --now offered '
+    'at every main-loop boundary; jobs keep running while the scheduler is '
+    'down, their messages are lost and recovered by the restart poll',
+    'the "state at the moment of stop" is the in-memory pool when the '
+    'scheduler coroutine ends; the restored state is the pool when '
+    'Scheduler.start() has returned (before the restart poll), so no '
+    'allowance for poll results is needed; prerequisite satisfaction is '
+    'compared as true/false per atom; runahead/queued flags, timers and '
+    'job summaries are not part of the statement and not compared',
+    'a restart is a plain "cylc play" (start-up options such as '
+    '--stopcp/--holdcp are not repeated)',
+    'commands still running when the scheduler blocks waiting for its '
+    'process pool at shutdown complete normally during that wait; '
+    'stop --now --now kills a running jobs-submit command, which the '
+    'scheduler records as a submission failure: the environment counts that '
+    'job as never launched and the terminal oracle takes it as a realised '
+    'outcome',
+    'after an automatic shutdown the stop point may be forgotten or kept '
+    '(judged by C43); with a stop task the run may end after that task '
+    '(whether a failed stop task may stop the workflow is C43\'s question)',
+    'terminal oracle: GraphFaithful closure over realised outcomes + '
+    'SubmitOnce, bounded by the hold point / current stop point; the '
+    'second-flow workflow is judged on restored state only',
 ]
-
 
 
 def catalogue(tier: str):
